@@ -42,7 +42,7 @@ META = dict(
 
 CLASSES = ('qset', 'linqset', 'Predicates')
 STARTS = {'empty': [], 'two': [2, 0]}
-PRED_SPECS = ((0, 0, 1), (0, 0, 2), (1, 0, 1), (2, 0, 2))
+PRED_SPECS = ((0, 0, 1), (0, 0, 2), (1, 0, 1), (1, 0, 2))      # two symbols, each with two conflicting arities
 U = sm.UNIVERSE
 CAP = 32     # no legitimate container over the universe is longer than 4
 
@@ -67,7 +67,101 @@ def units(tier, seed):
                            profile=profiles[k % len(profiles)]))
     for cls in CLASSES:
         us.append(dict(name=f'ic:{cls}', mode='ic', cls=cls, nseq=120 if quick else 2500, depth=30, profile='assign'))
+    # the predicate store over a wider universe (3 symbols x 2 arities + 1): slice assignments in which several arriving
+    # predicates conflict with different members, some leaving and some staying
+    us.append(dict(name='preds-wide', mode='preds-wide'))
     return us
+
+
+WIDE = ((0, 0, 1), (0, 0, 2), (1, 0, 1), (1, 0, 2), (2, 0, 1), (2, 0, 2), (3, 0, 1))
+
+
+def run_preds_wide(unit, out, tier, seed):
+    """Exhaustive: every start store of 2..3 non-conflicting predicates over WIDE x every equal-length slice x every
+    tuple of distinct arriving predicates. Oracle: the list-without-duplicates model with the arity-conflict relation;
+    a refused assignment leaves the store unchanged; afterwards no two members share a symbol with different arity and
+    every member is found by each of its refs."""
+    from itertools import permutations
+    from pytableaux.lang import Predicate, Predicates
+    preds = [Predicate(x) for x in WIDE]
+    sym = lambda t: t[:2]
+
+    def conflict_free(ts):
+        return len({sym(t) for t in ts}) == len(ts)
+
+    def state(v):
+        return [tuple(p.spec) for p in v]
+
+    def store_problems(v):
+        st = state(v)
+        probs = []
+        if len(set(st)) != len(st):
+            probs.append('duplicates')
+        if not conflict_free(st) and len(set(st)) == len(st):
+            probs.append('arity-conflict')
+        for p in list(v):
+            for ref in p.refs:
+                try:
+                    if v.get(ref) != p or ref not in v:
+                        probs.append('member-not-found-by-ref')
+                        break
+                except Exception:
+                    probs.append('member-not-found-by-ref')
+                    break
+        for t in WIDE:
+            if t not in st and sym(t) not in {sym(x) for x in st}:
+                if v.get(t, None) is not None:
+                    probs.append('non-member-found')
+        return sorted(set(probs))
+    n = 0
+    for k in (2, 3):
+        for start in permutations(WIDE, k):
+            if not conflict_free(start):
+                continue
+            if tier == 'quick' and (hash(start) + seed) % 3:
+                continue
+            for sl in ((0, 1), (0, 2), (1, 3), (0, 3), (1, 2)):
+                idx = range(*slice(*sl).indices(k))
+                if not idx:
+                    continue
+                for vals in permutations(WIDE, len(idx)):
+                    v = Predicates(start)
+                    before = state(v)
+                    want = list(before)
+                    want[slice(*sl)] = list(vals)
+                    ok_expected = len(set(want)) == len(want) and conflict_free(want)
+                    try:
+                        v[slice(*sl)] = [Predicate(x) for x in vals]
+                        raised = None
+                    except Exception as e:
+                        raised = type(e).__name__
+                    n += 1
+                    out.count('ops_executed')
+                    out.count('preds_wide_slice_assignments')
+                    out.case(('preds-wide', start, sl, vals), nontrivial=True)
+                    after = state(v)
+                    probs = store_problems(v)
+                    clause = None
+                    if raised and after != before:
+                        clause = 'changed-after-raise'
+                    elif raised is None and after != want:
+                        clause = 'model-mismatch'
+                    elif raised is None and not ok_expected:
+                        clause = 'invariant:' + '+'.join(probs or ['conflicting-assignment-accepted'])
+                    elif raised and ok_expected:
+                        clause = 'must-succeed-raised'
+                    elif probs:
+                        clause = 'invariant:' + '+'.join(probs)
+                    if clause:
+                        out.violation('preds-wide', dict(cls='Predicates', start=[list(t) for t in start], slice=list(sl),
+                                                         values=[list(t) for t in vals], raised=raised, after=[list(t) for t in after]),
+                                      dict(cls='Predicates', op='setslice', clause=clause,
+                                           conflicts_with_staying=any(sym(a) == sym(b) and a != b for a in vals
+                                                                      for j, b in enumerate(before) if j not in idx),
+                                           conflicts_with_leaving=any(sym(a) == sym(before[j]) and a != before[j] for a in vals for j in idx)),
+                                      f'Predicates{list(start)}[{sl[0]}:{sl[1]}] = {list(vals)} -> raised={raised}, now {after}: {clause}',
+                                      size=k + len(vals))
+    out.sample(dict(cls='Predicates', universe=[list(t) for t in WIDE], assignments=n), limit=1)
 
 
 # ====================================================================== domains (worker side)
@@ -897,6 +991,8 @@ def run_unit(unit, out, tier, seed):
         run_rnd(unit, out, seed)
     elif mode == 'ic':
         run_rnd(unit, out, seed, ic=True)
+    elif mode == 'preds-wide':
+        run_preds_wide(unit, out, tier, seed)
     else:
         raise ValueError(mode)
 
@@ -911,6 +1007,12 @@ def finalize(info):
 
 def replay(wit):
     c = wit['case']
+    if wit.get('kind') == 'preds-wide':
+        from ..worker import Out
+        out = Out()
+        run_preds_wide({}, out, 'thorough', 0)
+        same = [v for v in out.violations if v['diagnosis'] == wit['diagnosis']]
+        return dict(violates=bool(same), detail=[v['message'] for v in same][:3])
     dom = dom_for(c['cls'])
     ic = bool(c.get('ic'))
     rec = NullRec()
